@@ -622,9 +622,9 @@ func c07RunRace(r *core.Run) {
 // texts it has seen is full by then), then eight goroutines evaluate further different expressions at the same time,
 // free-running under the race detector. Every call must return its own answer.
 func c07Crowd(r *core.Run) {
-	fill, each := 4300, 700
+	fill, each := 4300, 3000
 	if r.Thorough() {
-		fill, each = 70000, 4000
+		fill, each = 70000, 20000
 	}
 	r.Bound("crowd_distinct_expressions_before", fill)
 	r.Bound("crowd_distinct_expressions_per_goroutine", each)
@@ -642,12 +642,10 @@ func c07Crowd(r *core.Run) {
 	r.Begin(map[string]any{"expr": "crowd: many distinct expressions, then eight goroutines with further distinct expressions", "doc": "free-running race pass"})
 	for i := 0; i < fill; i++ {
 		t, want := text(i)
-		var o core.Obs
-		if i%2 == 0 {
-			o = core.Search(t, d)
-		} else if e, co := core.Compile(t); e != nil {
+		o := core.Search(t, d)
+		if e, co := core.Compile(t); e != nil && o.Key() == want {
 			o = core.ExprSearch(e, d)
-		} else {
+		} else if e == nil {
 			o = co
 		}
 		if o.Key() != want {
@@ -663,8 +661,9 @@ func c07Crowd(r *core.Run) {
 			defer wg.Done()
 			for k := 0; k < each; k++ {
 				t, want := text(fill + g*each + k)
+				// three calls in four are one-shot searches (every one a text the process has not seen), the fourth compiles
 				var o core.Obs
-				if (g+k)%2 == 0 {
+				if (g+k)%4 != 0 {
 					o = core.Search(t, d)
 				} else if e, co := core.Compile(t); e != nil {
 					o = core.ExprSearch(e, d)
